@@ -13,6 +13,7 @@ EXTENDS Integers, Sequences, FiniteSets, TLC, Json, IOUtils, SpecFacts
 
 Rec == ndJsonDeserialize(IOEnv.TRACE)
 Decl == JsonDeserialize(IOEnv.DECL)
+MaskNames == JsonDeserialize(IOEnv.DISASMNAMES)     \* printed name of every mask bit (spec/DisasmNames.json, pinned)
 VARIABLES l, bad
 vars == <<l, bad>>
 
@@ -77,6 +78,8 @@ MaskOK(e) ==
        /\ (IsSingleBit(e.consts[j].decl) =>
              \E b \in 1..Len(G.kinds[k].bits) : G.kinds[k].bits[b].bit = e.consts[j].decl /\ e.consts[j].name \in ToSet(G.kinds[k].bits[b].names))
   /\ e.all = OrAll([j \in 1..Len(e.consts) |-> e.consts[j].decl], 1)
+  \* the printed name of every declared bit is the pinned one; the empty mask prints as pinned ("None")
+  /\ e.disas = MaskNames[k].bits /\ e.disas_zero = MaskNames[k].zero
 
 ---------------------------------------------------------------------------
 (* C09 *)
